@@ -21,8 +21,12 @@ package utils
 //@     invariant 0 <= iter
 //@     decreases len(handlers) - iter
 
+//@ func NewEventHandlerPool() (res *EventHandlerPool)
+//@   ensures[C15] res != nil && res.pool != nil
+
 //@ func (evp *EventHandlerPool) Handle(e Event, handle EventHandlerFunc)
 //@   requires evp != nil
+//@   requires[C15] @poolmade evp.pool != nil
 //@   safety[C15]
 //@   modifies MAP
 //@   ensures[C15,C19] @registered evp.pool != nil && mhas(evp.pool, e) && len(mget(evp.pool, e)) == old(ite(mhas(evp.pool, e), len(mget(evp.pool, e)), 0)) + 1 && nth(mget(evp.pool, e), len(mget(evp.pool, e)) - 1) == handle
@@ -30,3 +34,4 @@ package utils
 //@ func (evp *EventHandlerPool) Clean()
 //@   requires evp != nil
 //@   modifies evp.pool, MAP
+//@   ensures[C15] evp.pool != nil
